@@ -24,6 +24,7 @@ import (
 	"io"
 	"os"
 	"path/filepath"
+	"slices"
 	"sync"
 	"time"
 
@@ -209,6 +210,14 @@ func (p *Provider) ruleSetsChanged(evt fsnotify.Event) error {
 		return p.ruleSetCreatedOrUpdated(p.src)
 	}
 
+	if info, err := os.Stat(evt.Name); err == nil && info.IsDir() {
+		// something happened to a directory, or a symbolic link to a directory within the watched
+		// directory. The rule set files may be links with that directory on the way to their
+		// targets (that is how the volumes for kubernetes config maps and secrets get updated).
+		// So, all rule sets are checked for changes. For those without changes nothing happens
+		return p.reloadRuleSets()
+	}
+
 	var err error
 
 	switch {
@@ -221,6 +230,30 @@ func (p *Provider) ruleSetsChanged(evt fsnotify.Event) error {
 	}
 
 	return err
+}
+
+func (p *Provider) reloadRuleSets() error {
+	sources, err := p.sources()
+	if err != nil {
+		return err
+	}
+
+	var errs error
+
+	for _, src := range sources {
+		errs = errors.Join(errs, p.ruleSetCreatedOrUpdated(src))
+	}
+
+	// rule sets loaded from files, which are not there any more
+	p.states.Range(func(key, _ any) bool {
+		if fileName := key.(string); !slices.Contains(sources, fileName) { //nolint:forcetypeassert
+			errs = errors.Join(errs, p.ruleSetDeleted(fileName))
+		}
+
+		return true
+	})
+
+	return errs
 }
 
 func (p *Provider) ruleSetCreatedOrUpdated(fileName string) error {
@@ -342,7 +375,9 @@ func (p *Provider) sources() ([]string, error) {
 		for _, entry := range dirEntries {
 			path := filepath.Join(p.src, entry.Name())
 
-			if entry.IsDir() {
+			// symbolic links to directories (like ..data in the volumes of kubernetes
+			// config maps and secrets) are directories as well
+			if info, err := os.Stat(path); entry.IsDir() || (err == nil && info.IsDir()) {
 				p.l.Warn().Str("_path", path).Msg("Ignoring directory")
 
 				continue
